@@ -55,6 +55,14 @@ theorem hRpDelete_inv {db : DB R} (h : HInv db) (uuid : Nat) : HInv (hRpDelete d
     obtain ⟨-, -, rfl⟩ := deleteProvider_ok heq
     exact ⟨ids_of_rpIds hi h.ids rfl rfl, hf, hr⟩
 
+/-- Every request other than a provider create / update / delete leaves the id, parent and root
+columns of the provider table exactly as they were (generation bumps through `setRp` keep them). -/
+theorem rps_shape_unchanged (cfg : Config) {db : DB R} (hI : Ids db.gcore) (op : Op R)
+    (h1 : ∀ mv u n p, op ≠ .rpCreate mv u n p) (h2 : ∀ mv u n p, op ≠ .rpUpdate mv u n p)
+    (h3 : ∀ u, op ≠ .rpDelete u) :
+    (step cfg db op).1.rps.map shape = db.rps.map shape ∧ (step cfg db op).1.nextRp = db.nextRp :=
+  ⟨(step_frame cfg hI op h1 h2 h3).rps.shape, (step_frame cfg hI op h1 h2 h3).nextRp⟩
+
 theorem hinv_of_frame {db db' : DB R} (h : HInv db) (f : Frame db.gcore db'.gcore) : HInv db' :=
   ⟨f.ids, forest_of_shape f.rps.shape h.forest, roots_of_shape f.rps.shape h.roots⟩
 
